@@ -25,6 +25,7 @@ func checkC16(w *World, r *Report) {
 	r.NotDecided = "equality of the flags with balance deltas (numeric); fixed-price dust bids (flagged matched although they receive zero coins); that the clearing price is the right one (C03)."
 	r.Rule("PUB-MATCHFLAG", "matched flag can be cleared for every bid of the auction and follows the matched set", 2)
 	r.Rule("PUB-PRICE", "batch settlement publishes the clearing price before storing the auction", 1)
+	r.Rule("PUB-NOSALE", "a probe that matched nothing is not kept as the matching result (published price stays zero)", 1)
 	r.Rule("QRY-KEY", "by-id queries use exactly the request's id fields as key", 3)
 	r.Rule("QRY-FIELDUSE", "every request field of a query is used", 8)
 	r.Rule("QRY-FILTER", "a set filter admits exactly the matching records", 2)
@@ -35,6 +36,7 @@ func checkC16(w *World, r *Report) {
 
 	checkMatchFlag(w, r, tm, tree)
 	checkPubPrice(w, r, tm, tree)
+	checkNoSale(w, r, tm, tree)
 	checkQueries(w, r, tm)
 }
 
@@ -332,6 +334,80 @@ func checkPubPrice(w *World, r *Report, tm *Terms, tree map[*ssa.Function]bool) 
 	r.Check(len(bad) == 0, "PUB-PRICE", fnName(root)+":publishes-price", w.pos(root.Pos()),
 		"every non-failing settlement path of "+fnName(root)+" assigns BatchAuction.MatchedPrice from the matching result and then stores the auction",
 		strings.Join(bad, "; ")+" — the published matched price stays at its creation value (zero) whatever the clearing price was")
+}
+
+// ---------------------------------------------------------------- PUB-NOSALE
+
+// noSaleRule: the matcher's "matched" result is false; a store of the matcher's result into a captured variable is recorded.
+type noSaleRule struct {
+	BaseRule
+	matcher ssa.CallInstruction
+	kept    []ssa.Instruction
+}
+
+func (n *noSaleRule) CallResult(x *Explorer, fr *Frame, c ssa.CallInstruction) ([]AV, CallMode) {
+	if c == n.matcher {
+		return []AV{NonNil, False}, CallReplace
+	}
+	return nil, CallDefault
+}
+
+func (n *noSaleRule) OnInstr(x *Explorer, fr *Frame, in ssa.Instruction, st uint64) uint64 {
+	if s, ok := in.(*ssa.Store); ok {
+		if _, isFree := s.Addr.(*ssa.FreeVar); isFree && derivesFrom(s.Val, n.matcher) {
+			n.kept = append(n.kept, in)
+		}
+	}
+	return st
+}
+
+// checkNoSale: the clearing price is published from the kept matching result. A probe for which the matcher reports
+// "nothing matched" must not be kept, otherwise a settlement that sells nothing publishes the probed price.
+func checkNoSale(w *World, r *Report, tm *Terms, tree map[*ssa.Function]bool) {
+	n := 0
+	for _, fn := range sortedFns(tree) {
+		for _, b := range fn.Blocks {
+			for _, in := range b.Instrs {
+				c, ok := in.(ssa.CallInstruction)
+				if !ok || callKey(c.Common()) != "sort.Search" || len(c.Common().Args) != 2 {
+					continue
+				}
+				mc, ok := c.Common().Args[1].(*ssa.MakeClosure)
+				if !ok {
+					continue
+				}
+				pred := mc.Fn.(*ssa.Function)
+				// the matcher: a repository call returning (result, bool)
+				for _, pb := range pred.Blocks {
+					for _, pin := range pb.Instrs {
+						call, ok := pin.(*ssa.Call)
+						if !ok || w.calleeBody(&call.Call) == nil {
+							continue
+						}
+						res := call.Call.Signature().Results()
+						if res.Len() != 2 || !types.Identical(res.At(1).Type(), types.Typ[types.Bool]) {
+							continue
+						}
+						n++
+						rule := &noSaleRule{matcher: call}
+						NewExplorer(w, tm, rule).Run(pred, 0)
+						var at []string
+						for _, k := range rule.kept {
+							at = append(at, w.instrPos(k))
+						}
+						sort.Strings(at)
+						r.Check(len(at) == 0, "PUB-NOSALE", fmt.Sprintf("%s:sort.Search#%d", fnName(fn), occurrence(fn, c)), w.instrPos(pin),
+							"when the matcher reports that nothing was matched at the probed price, its result is not kept as the matching result",
+							"the result of a probe that matched nothing is kept at "+strings.Join(dedupe(at), ", ")+": a settlement in which every bid converts to zero coins sells nothing but publishes the probed price as matched price")
+					}
+				}
+			}
+		}
+	}
+	if n == 0 {
+		r.Note("no binary search over a (result, matched) matcher: PUB-NOSALE is vacuous")
+		r.Rules["PUB-NOSALE"].Floor = 0
+	}
 }
 
 // ---------------------------------------------------------------- queries
